@@ -3,7 +3,8 @@
 # exactly the harnesses that include it.
 REPO ?= /repo
 FLAVOUR ?= asan
-B := build/$(FLAVOUR)
+BUILD ?= build
+B := $(BUILD)/$(FLAVOUR)
 CXX := g++
 STD := -std=c++17
 INC := -I$(REPO)/include -Isimrt -Iharness
